@@ -1,5 +1,5 @@
 (* C02 — determinism across completion order, runner, concurrency. *)
-From HG Require Import Base CheckLib Engine Exec EngineProofs NodeOrder Samples.
+From HG Require Import Base CheckLib Engine Exec EngineProofs NodeOrder RunnerProofs Samples.
 From stdpp Require Import gmap.
 
 (* Any completion order of the concurrently running nodes of a step gives the same state,
@@ -62,6 +62,31 @@ Proof.
   intros g1 g2 Hp Hb Ha Hn st. split; [apply ready_state_perm | apply ready_list_perm]; assumption.
 Qed.
 Print Assumptions C02_ready_order.
+
+(* RUNNERS, whole runs.  For every graph without interrupts (cyclic and gated ones included), every executor and every budget:
+   a COMPLETED synchronous run IS the asynchronous run (same final state, same per-superstep call log); a FAILED one fails
+   with the same error (the partial states may differ: the synchronous step stops at the failing node); a paused one pauses
+   at the same place with the same state. *)
+Theorem C02_runner_independent : forall exec g pv,
+  (forall n, In n (g_nodes g) -> is_interrupt n = false) -> forall fuel,
+  match execute exec Sync fuel g pv with
+  | (RDone s, l) => execute exec Async fuel g pv = (RDone s, l)
+  | (RFailed e _, _) => exists p' l', execute exec Async fuel g pv = (RFailed e p', l')
+  | (RPaused pz s, _) => exists l', execute exec Async fuel g pv = (RPaused pz s, l')
+  end.
+Proof. exact runners_agree. Qed.
+Print Assumptions C02_runner_independent.
+
+(* non-vacuity on a cyclic, gated program: the signal-synchronised loop has no interrupt and completes under the synchronous
+   runner - hence, by the theorem, under the asynchronous one with the same state and log; with a short budget it fails with
+   InfiniteLoopError under both *)
+Example C02_runner_independent_loop :
+  (forall n, In n (g_nodes loop) -> is_interrupt n = false) /\
+  res_status (run_basic loop_ft loop_gt Sync 20 loop [(1%positive, VInt 0)] None) = 0 /\
+  res_status (run_basic loop_ft loop_gt Async 20 loop [(1%positive, VInt 0)] None) = 0 /\
+  res_err (run_basic loop_ft loop_gt Sync 5 loop [(1%positive, VInt 0)] None) = Some EInfiniteLoop /\
+  res_err (run_basic loop_ft loop_gt Async 5 loop [(1%positive, VInt 0)] None) = Some EInfiniteLoop.
+Proof. split; [intros n [<-|[<-|[]]]; reflexivity | vm_compute; repeat split; reflexivity]. Qed.
 
 (* Non-vacuity: the diamond listed in reverse order runs to the same values. *)
 Example C02_node_order_nonvacuous :
